@@ -214,6 +214,8 @@ def from_xir_to_tdm(xir_prog: xir.Program) -> TDMProgram:
 
     if "shots" in xir_prog.options:
         prog.run_options["shots"] = xir_prog.options["shots"]
+    if "cutoff_dim" in xir_prog.options:
+        prog.backend_options["cutoff_dim"] = xir_prog.options["cutoff_dim"]
 
     return prog
 
